@@ -7,7 +7,7 @@ from ..lhamodel import pmarc
 
 LEVEL = 'exploration'
 _EXE = None
-REQ_PM2 = ['code-single', 'off-empty', 'off-single', 'off-multi5', 'off-multi6', 'off-multi7', 'off-multi8', 'midcopy',
+REQ_PM2 = ['copy-before-start', 'code-single', 'off-empty', 'off-single', 'off-multi5', 'off-multi6', 'off-multi7', 'off-multi8', 'midcopy',
            'stage1', 'stage2', 'stage3', 'stage4', 'stage5', 'reread-0', 'reread-1'] + ['hist%d' % i for i in range(8)] \
     + ['copy%d' % i for i in range(0, 21)] + ['offw%d' % i for i in range(6, 13)]
 REQ_PM1 = ['range%d' % i for i in range(6)] + ['end-in-block', 'zero-tail-cut', 'blocklen-1', 'blocklen-216', 'blocklen-215',
@@ -40,7 +40,10 @@ def shard_pm2(seed, n):
         feat = set()
         directed = i < 3
         tgt = targets[i % len(targets)] if i < 2 * len(targets) else rnd.choice(targets)
-        cmds = pmarc.pm2_gen(rnd, tgt, mtf_directed=directed)
+        prefill = (i % 3 == 2)
+        cmds = pmarc.pm2_gen(rnd, tgt, mtf_directed=directed, prefill=prefill)
+        if prefill:
+            feat.add('copy-before-start')
         if i % 7 == 3:
             # a long copy placed so that it straddles a table re-read point
             cmds = [('B', rnd.randrange(256)) for _ in range(rnd.choice([1000, 2030, 4090, 8100, 12200]))] \
@@ -151,7 +154,7 @@ def run(ctx):
     ctx.cov['rule'] = ('streams from vlib/lhamodel/pmarc.py: pm2 with random complete code/offset tables at every stage and tables '
                        're-read in mid-copy; pm1 over all 32 start trees with copies steered to every position threshold; distinct by '
                        'stream bytes; non-trivial = contains a copy command (pm2: and more than 1 KiB output so a re-read occurred)')
-    ctx.assumptions += ['copies are generated only from bytes already produced (the statement fixes no initial window for PMarc)',
+    ctx.assumptions += ['-pm2- copies that reach back before the first output byte are expected to read spaces (the LHA-family convention; the statement does not spell out the initial window); -pm1- copies are generated only from bytes already produced',
                         'no real -pm1- encoder exists; the model is a reading of the format']
 
 
